@@ -10,6 +10,21 @@ CFG = (" Also run at the quick depth in child processes under other documented c
        "default_enzyme_density ({inf, inf}: solids and enzymes without volume; {2.165, 1.35}): the first per quick run, both per thorough run.")
 CFG_T = (" The thorough tier also runs the quick depth in child processes under two other configurations of default_solid_density / "
          "default_enzyme_density ({inf, inf}, {2.165, 1.35}).")
+# additions of waves 17 / 18 (appended to the level text)
+EXTRA = {
+ 'C01': " Draws from dry sources whose mass is below the storage resolution of a gram.",
+ 'C02': " Draws from dry sources whose mass is below the storage resolution of a gram.",
+ 'C03': " Decimal capacities (every tenth of a uL up to 50 uL and of a mL up to 50 mL) filled exactly at construction, by fill_to and by transfer; 47 two-step recipes whose second step fits only on the vessel as the first step left it, and dilutions of one liquid with another: the recipe accepts / refuses what the container operations do.",
+ 'C04': " Refused create_solution_from / dilute / start_stage calls inside programs; every action on a world whose objects were looked at (all read-only queries) versus one that was not; every tracking query of every baked program of <= 2 steps asked twice with the others in between.",
+ 'C09': " The enzyme is also asked for in mg, uL and mU.",
+ 'C10': " The wells a view addresses come from the independent resolver; observers also through a sub-slice of a strided slice.",
+ 'C11': " Mixtures whose parts measure exactly the same in one unit (equimolar solutes, equal volumes).",
+ 'C12': " A stock that holds a twin of the solute as bystander; requests for a twin of what the stock holds must be refused.",
+ 'C13': " Zero and negative slice bounds; lists refused at a later element; every judged list preceded by an accepted and a refused list; a list used (remove) and read again.",
+ 'C14': " Molarity strings are no quantities at 12 entry points; quantities of another kind are no capacities; v/v spellings through dilute / create_solution_from directly and as recipe steps.",
+ 'C19': " Recipe create_solution steps over every ordered pair / triple of solutes: names listed in the order of the per-solute values.",
+}
+
 CHECKS = {
  'C18': dict(
     technique="exhaustive enumeration of one scenario set executed under every enumerated storage configuration in separate processes; differential oracle against the shipped configuration",
@@ -145,7 +160,7 @@ def main():
             'evidence_file': f'/verif/evidence/{pid}.json',
             'replay_cmd_template': './vcheck --replay {path}',
             'engine': 'pmc',
-            'level_claimed': {'category': 'model_checking', 'text': c['text'], 'design_ref': c['ref']},
+            'level_claimed': {'category': 'model_checking', 'text': c['text'] + EXTRA.get(pid, ''), 'design_ref': c['ref']},
             'level_note': c['note'],
             'technique': c['technique'],
         })
